@@ -214,7 +214,11 @@ class Form(Node):
             return E1
         else:
             # Hyperbolic
-            if e < 1.6:
+            if abs(M) > 6 * e:
+                # Far from the periapsis sinh(H) ~ sign(H) * exp(|H|) / 2, and
+                # the initial guesses below (of the order of M) overflow sinh and cosh
+                H = np.sign(M) * np.log(2 * abs(M) / e + 1.8)
+            elif e < 1.6:
                 if -np.pi < M < 0 or M > np.pi:
                     H = M - e
                 else:
